@@ -6,6 +6,7 @@ import (
 	"fmt"
 	"net"
 	"strings"
+	"sync"
 	"time"
 
 	"github.com/la5nta/wl2k-go/transport"
@@ -92,7 +93,7 @@ func plainEnds(s string) bool {
 
 func runC15(ctx *Ctx) error {
 	r, res := ctx.Rng, ctx.Res
-	res.Rule = "on loopback TCP: (A) DialContext against this package's Listen/Accept for callsigns and passwords from three families (callsign-like, printable ASCII incl. inner spaces, arbitrary bytes without CR), both sides writing a payload immediately after login; (B) the library client against a scripted server that splits prompts at random places, sends banner and blank lines, garbage lines without the keywords, and coalesces the payload with the password prompt or sends everything in one write; (C) the library server against a scripted client that sends callsign, password and payload in one write or in random pieces; every observation compared with the model (what each side sent, what was left for Read) and judged by the property (RemoteCall = the dialler's callsign, payloads byte-exact and complete); (D) DialContext / DialTimeout / DialURL(dial_timeout) / DialURLContext / transport.DialURLContext through the registry with a configured time-out and a later context deadline against servers that stay silent, send half a prompt, send garbage lines periodically, close at once, close after the first prompt, or prompt and then never read the (24 MiB) answer: the call must return an error no later than its deadline (+1.5 s tolerance for scheduling on a loaded machine), a context cancelled without deadline ends the dial as well, and so does a time-out or deadline that has already run out when the dial starts (0 and -1 s). Non-trivial: scenario with a payload of at least one byte in each direction; distinct by scenario parameters."
+	res.Rule = "on loopback TCP: (A) DialContext against this package's Listen/Accept for callsigns and passwords from three families (callsign-like, printable ASCII incl. inner spaces, arbitrary bytes without CR), both sides writing a payload immediately after login; (B) the library client against a scripted server that splits prompts at random places, sends banner and blank lines, garbage lines without the keywords, and coalesces the payload with the password prompt or sends everything in one write; (C) the library server against a scripted client that sends callsign, password and payload in one write or in random pieces; every observation compared with the model (what each side sent, what was left for Read) and judged by the property (RemoteCall = the dialler's callsign, payloads byte-exact and complete); (D) DialContext / DialTimeout / DialURL(dial_timeout) / DialURLContext / transport.DialURLContext through the registry with a configured time-out and a later context deadline against servers that stay silent, send half a prompt, send garbage lines periodically, close at once, close after the first prompt, or prompt and then never read the (24 MiB) answer: the call must return an error no later than its deadline (+1.5 s tolerance for scheduling on a loaded machine), a context cancelled without deadline ends the dial as well, a dial begun while another one is still in progress honours its own deadline, and so does a time-out or deadline that has already run out when the dial starts (0 and -1 s). Non-trivial: scenario with a payload of at least one byte in each direction; distinct by scenario parameters."
 	if !ardLoopbackOK() {
 		res.Fail(Failure{Kind: "broken", Site: "environment", Detail: "loopback TCP is not available: the telnet package cannot be exercised"})
 		return nil
@@ -526,6 +527,76 @@ func runC15(ctx *Ctx) error {
 		if i < 2 {
 			res.Sample(desc)
 		}
+	}
+
+	// ---------- (E) two dials at once through the registry: each honours its OWN limit
+	for k := 0; k < 2; k++ {
+		desc := fmt.Sprintf("E a dial with a 300 ms deadline begun while another dial (deadline 3 s, silent server) is in progress, both through transport.DialURLContext (run %d)", k)
+		ctx.Mark(desc)
+		lnA, errA := net.Listen("tcp", "127.0.0.1:0")
+		lnB, errB := net.Listen("tcp", "127.0.0.1:0")
+		if errA != nil || errB != nil {
+			return fmt.Errorf("listen: %v %v", errA, errB)
+		}
+		var held []net.Conn
+		var hmu sync.Mutex
+		for _, ln := range []net.Listener{lnA, lnB} {
+			go func(ln net.Listener) {
+				for {
+					c, err := ln.Accept()
+					if err != nil {
+						return
+					}
+					hmu.Lock()
+					held = append(held, c) // accepted and silent
+					hmu.Unlock()
+				}
+			}(ln)
+		}
+		uA, _ := transport.ParseURL(fmt.Sprintf("telnet://LA5NTA:secret@%s/wl2k", lnA.Addr().String()))
+		uB, _ := transport.ParseURL(fmt.Sprintf("telnet://LA5NTA:secret@%s/wl2k", lnB.Addr().String()))
+		doneA := make(chan struct{})
+		go func() {
+			dctx, cancel := context.WithTimeout(context.Background(), 3*time.Second)
+			if c, err := transport.DialURLContext(dctx, uA); err == nil {
+				c.Close()
+			}
+			cancel()
+			close(doneA)
+		}()
+		time.Sleep(100 * time.Millisecond)
+		startB := time.Now()
+		doneB := make(chan error, 1)
+		go func() {
+			dctx, cancel := context.WithTimeout(context.Background(), 300*time.Millisecond)
+			c, err := transport.DialURLContext(dctx, uB)
+			if err == nil {
+				c.Close()
+			}
+			cancel()
+			doneB <- err
+		}()
+		select {
+		case err := <-doneB:
+			if el := time.Since(startB); err == nil {
+				res.Fail(Failure{Kind: "oracle", Site: "dial-deadline", Case: desc, Impl: "the dial reported success although the server never sent a prompt"})
+			} else if el > 300*time.Millisecond+1500*time.Millisecond {
+				res.Fail(Failure{Kind: "oracle", Site: "dial-deadline", Case: desc, Impl: fmt.Sprintf("the dial returned after %v, its limit was 300ms", el)})
+			}
+		case <-time.After(2400 * time.Millisecond):
+			res.Fail(Failure{Kind: "oracle", Site: "dial-deadline", Case: desc, Impl: "the dial had not returned 2.1 s after its limit of 300ms (the other dial was still in progress)"})
+		}
+		<-doneA
+		lnA.Close()
+		lnB.Close()
+		hmu.Lock()
+		for _, c := range held {
+			c.Close()
+		}
+		hmu.Unlock()
+		res.Traces++
+		res.Eval(desc, true)
+		res.Count("deadline-concurrent-dials")
 	}
 
 	out, err := ctx.Model.RunParallel(lines, 8)
